@@ -5,6 +5,7 @@ import importlib, json, os, sys
 HERE = os.path.dirname(os.path.abspath(__file__))
 VERIF = os.path.dirname(HERE)
 sys.path.insert(0, HERE)
+sys.path.insert(0, os.path.join(HERE, "props"))
 
 props = [json.loads(l) for l in open(os.path.join(VERIF, "properties.jsonl"))]
 checks, na = [], []
@@ -19,7 +20,12 @@ for p in props:
     if not os.path.exists(path):
         na.append({"property_id": pid, "reason": NOT_YET.get(pid, "not claimed: no Lean model/theorems/correspondence for this property are committed yet (see DESIGN.md section 5 for the plan)")})
         continue
-    m = importlib.import_module("props." + pid.lower())
+    try:
+        m = importlib.import_module("props." + pid.lower())
+        m.LEVEL_TEXT, m.LEVEL_NOTE, m.TECHNIQUE
+    except Exception as e:
+        na.append({"property_id": pid, "reason": "check under construction (plug-in not complete yet): %s" % str(e)[:80]})
+        continue
     checks.append({
         "property_id": pid,
         "quick_cmd": "./check %s --tier quick" % pid,
